@@ -627,7 +627,7 @@ Example C04_concrete_many_patches :
   /\ c04_corr_case 3 (bpc_dense 3 exa_big) (Some (bpc_dense 3 exa_big_dr)) None None impl = 0%nat
   (* the counts of pair (2, 1) restored at (0, 1): the same total, other samples *)
   /\ c04_big_case 3 exa_big (Some exa_big_dr) None None
-       (Some ([Some (3 # 2)], [[Some (3 # 2)]; [Some 2]; [Some (7 # 3)]])) = 4%nat
+       (Some ([Some (3 # 2)], [[Some (7 # 2)]; [Some 2]; [Some 1]])) = 4%nat
   /\ c04_big_case 3 exa_big (Some exa_big_dr) None None None = 1%nat
   (* the thresholds *)
   /\ flat_w 16 181 180 180 = 32760%Z /\ flat_w 16 182 180 8 = (-32768)%Z /\ lands 16 182 180 8 = (1, 174)%Z
